@@ -182,7 +182,10 @@ TStart ==
     /\ Ev.e = "Start"
     /\ OnVerdict(Verdict(<< Cond("public-size-constants-are-numbers", {"C17", "C14"},
                                 /\ Ev.strsize_x3 = 3 * Ev.strsize /\ Ev.strsize_rem7 = 1000 % Ev.strsize
-                                /\ Ev.size_x3 = 96 /\ Ev.numwords_x3 = 48 /\ Ev.strsizeof = Ev.strsize) >>),
+                                /\ Ev.size_x3 = 96 /\ Ev.numwords_x3 = 48 /\ Ev.strsizeof = Ev.strsize),
+                            \* the members of the dependency structure in the published order (C18: "the functions given at
+                            \* injection" - given by a caller who fills the structure as published)
+                            Cond("dependency-structure-as-published", {"C18"}, Ev.deporder) >>),
                  Advance /\ UNCHANGED <<mask, deps, heap, blocks, call, skip, proj, issued, lastAuto>>)
 
 TReset ==
@@ -231,6 +234,11 @@ GlobalWriteTags(op) ==
       [] op = "free" -> {"C15"}
       [] OTHER -> {}
 
+OwnPhraseCall ==
+    /\ call.op \in {"Decode", "DecodeX"}
+    /\ call.a.sreg \in DOMAIN issued
+    /\ issued[call.a.sreg].str = call.a.str
+
 \* observers of the concurrent runs: a store into write-protected library data, a ThreadSanitizer report
 TFault ==
     /\ ~skip \/ ObserverFault
@@ -243,7 +251,9 @@ TFault ==
                          THEN << Cond("data-race-reported", {"C20"}, FALSE) >>
                          \* (C15: "if the allocator fails during any call, that call returns the memory status without crashing")
                          ELSE << Cond("call-crashed-or-hung", FaultTags(Ev.op) \cup (IF Ev.op = "threads" THEN {"C20"} ELSE {})
-                                                              \cup (IF call # None /\ AllocFailed THEN {"C15"} ELSE {}), FALSE) >>),
+                                                              \cup (IF call # None /\ AllocFailed THEN {"C15"} ELSE {})
+                                                              \* (a phrase the library issued, fed back to a decoder)
+                                                              \cup (IF call # None /\ OwnPhraseCall THEN {"C17", "C01"} ELSE {}), FALSE) >>),
                  FALSE)
 
 TBegin ==
